@@ -152,6 +152,7 @@ type Widget struct {
 	Weight    float64
 	DeletedAt gorm.DeletedAt
 	Secret    Cipher
+	UpdatedAt time.Time
 }
 
 // A second family, unrelated to the first: one shared target type (Parcel) that is the has-many /
@@ -370,32 +371,41 @@ func newSlice(m int) interface{} {
 	return reflect.New(reflect.SliceOf(reflect.TypeOf(newModel(m)).Elem())).Interface()
 }
 
-// the tables, as AutoMigrate of a separate handle wrote them (fixed text: the handle under test
+// forbidden: the value of the model's first column that the table's CHECK constraint refuses - a
+// statement with it is prepared like any other and fails when it is executed.
+func forbidden(m int) interface{} {
+	if m == mReview {
+		return -77
+	}
+	return "FORBIDDEN"
+}
+
+// the tables, as AutoMigrate of a separate handle wrote them (plus one CHECK constraint each) (fixed text: the handle under test
 // must stay cold, so the check creates tables through database/sql)
 var ddl = []string{
-	"CREATE TABLE `companies` (`id` integer,`name` text,PRIMARY KEY (`id`))",
-	"CREATE TABLE `authors` (`id` integer,`name` text,`age` integer,`company_id` integer,PRIMARY KEY (`id`))",
-	"CREATE TABLE `profiles` (`id` integer,`bio` text,`author_id` integer,PRIMARY KEY (`id`))",
-	"CREATE TABLE `books` (`id` integer,`title` text,`pages` integer,`author_id` integer,PRIMARY KEY (`id`))",
-	"CREATE TABLE `reviews` (`id` integer,`stars` integer,`book_id` integer,PRIMARY KEY (`id`))",
-	"CREATE TABLE `tags` (`id` integer,`label` text,PRIMARY KEY (`id`))",
+	"CREATE TABLE `companies` (`id` integer,`name` text,CHECK (`name` <> 'FORBIDDEN'),PRIMARY KEY (`id`))",
+	"CREATE TABLE `authors` (`id` integer,`name` text,`age` integer,`company_id` integer,CHECK (`name` <> 'FORBIDDEN'),PRIMARY KEY (`id`))",
+	"CREATE TABLE `profiles` (`id` integer,`bio` text,`author_id` integer,CHECK (`bio` <> 'FORBIDDEN'),PRIMARY KEY (`id`))",
+	"CREATE TABLE `books` (`id` integer,`title` text,`pages` integer,`author_id` integer,CHECK (`title` <> 'FORBIDDEN'),PRIMARY KEY (`id`))",
+	"CREATE TABLE `reviews` (`id` integer,`stars` integer,`book_id` integer,CHECK (`stars` <> -77),PRIMARY KEY (`id`))",
+	"CREATE TABLE `tags` (`id` integer,`label` text,CHECK (`label` <> 'FORBIDDEN'),PRIMARY KEY (`id`))",
 	"CREATE TABLE `author_tags` (`author_id` integer,`tag_id` integer,PRIMARY KEY (`author_id`,`tag_id`))",
-	"CREATE TABLE `gadgets` (`id` integer,`name` text,`qty` integer,`labels` text,`level` text,`spec_color` text,`spec_size` integer,`created_at` datetime,`updated_at` datetime,PRIMARY KEY (`id`))",
-	"CREATE TABLE `widgets` (`id` integer,`code` text,`weight` real,`deleted_at` datetime,`secret` text,PRIMARY KEY (`id`))",
-	"CREATE TABLE `bands` (`id` integer,`name` text,PRIMARY KEY (`id`))",
-	"CREATE TABLE `songs` (`id` integer,`title` text,PRIMARY KEY (`id`))",
+	"CREATE TABLE `gadgets` (`id` integer,`name` text,`qty` integer,`labels` text,`level` text,`spec_color` text,`spec_size` integer,`created_at` datetime,`updated_at` datetime,CHECK (`name` <> 'FORBIDDEN'),PRIMARY KEY (`id`))",
+	"CREATE TABLE `widgets` (`id` integer,`code` text,`weight` real,`deleted_at` datetime,`secret` text,`updated_at` datetime,CHECK (`code` <> 'FORBIDDEN'),PRIMARY KEY (`id`))",
+	"CREATE TABLE `bands` (`id` integer,`name` text,CHECK (`name` <> 'FORBIDDEN'),PRIMARY KEY (`id`))",
+	"CREATE TABLE `songs` (`id` integer,`title` text,CHECK (`title` <> 'FORBIDDEN'),PRIMARY KEY (`id`))",
 	"CREATE TABLE `band_songs` (`band_id` integer,`song_id` integer,PRIMARY KEY (`band_id`,`song_id`))",
-	"CREATE TABLE `teams` (`id` integer,`name` text,PRIMARY KEY (`id`))",
-	"CREATE TABLE `skills` (`id` integer,`label` text,PRIMARY KEY (`id`))",
+	"CREATE TABLE `teams` (`id` integer,`name` text,CHECK (`name` <> 'FORBIDDEN'),PRIMARY KEY (`id`))",
+	"CREATE TABLE `skills` (`id` integer,`label` text,CHECK (`label` <> 'FORBIDDEN'),PRIMARY KEY (`id`))",
 	"CREATE TABLE `team_skills` (`team_id` integer,`skill_id` integer,PRIMARY KEY (`team_id`,`skill_id`))",
-	"CREATE TABLE `shops` (`id` integer,`name` text,PRIMARY KEY (`id`))",
-	"CREATE TABLE `brands` (`id` integer,`label` text,PRIMARY KEY (`id`))",
+	"CREATE TABLE `shops` (`id` integer,`name` text,CHECK (`name` <> 'FORBIDDEN'),PRIMARY KEY (`id`))",
+	"CREATE TABLE `brands` (`id` integer,`label` text,CHECK (`label` <> 'FORBIDDEN'),PRIMARY KEY (`id`))",
 	"CREATE TABLE `shop_brands` (`shop_id` integer,`brand_id` integer,PRIMARY KEY (`shop_id`,`brand_id`))",
-	"CREATE TABLE `parcels` (`id` integer,`label` text,`weight` integer,`depot_id` integer,`courier_id` integer,`customs_id` integer,`sorter_id` integer,PRIMARY KEY (`id`))",
-	"CREATE TABLE `depots` (`id` integer,`name` text,PRIMARY KEY (`id`))",
-	"CREATE TABLE `couriers` (`id` integer,`name` text,PRIMARY KEY (`id`))",
-	"CREATE TABLE `customs` (`id` integer,`name` text,PRIMARY KEY (`id`))",
-	"CREATE TABLE `sorters` (`id` integer,`name` text,PRIMARY KEY (`id`))",
+	"CREATE TABLE `parcels` (`id` integer,`label` text,`weight` integer,`depot_id` integer,`courier_id` integer,`customs_id` integer,`sorter_id` integer,CHECK (`label` <> 'FORBIDDEN'),PRIMARY KEY (`id`))",
+	"CREATE TABLE `depots` (`id` integer,`name` text,CHECK (`name` <> 'FORBIDDEN'),PRIMARY KEY (`id`))",
+	"CREATE TABLE `couriers` (`id` integer,`name` text,CHECK (`name` <> 'FORBIDDEN'),PRIMARY KEY (`id`))",
+	"CREATE TABLE `customs` (`id` integer,`name` text,CHECK (`name` <> 'FORBIDDEN'),PRIMARY KEY (`id`))",
+	"CREATE TABLE `sorters` (`id` integer,`name` text,CHECK (`name` <> 'FORBIDDEN'),PRIMARY KEY (`id`))",
 }
 
 // ---- rendering (results are compared as text) ---------------------------------------------------
@@ -499,6 +509,9 @@ func renderWidget(w *Widget) string {
 	s := fmt.Sprintf("Widget{%d %q %g secret=%q", w.ID, w.Code, w.Weight, string(w.Secret))
 	if w.DeletedAt.Valid {
 		s += " deleted=" + w.DeletedAt.Time.UTC().Format("15:04:05")
+	}
+	if !w.UpdatedAt.IsZero() {
+		s += " u=" + w.UpdatedAt.UTC().Format("15:04:05")
 	}
 	return s + "}"
 }
